@@ -982,7 +982,15 @@ func (app *BaseApp) runTx(mode runTxMode, txBytes []byte, tx sdk.Tx) (result sdk
 
 	// Create a new context based off of the existing context with a cache wrapped
 	// multi-store in case message processing fails.
-	runMsgCtx, newMS := app.txContext(ctx, txBytes) // todo edit here!!!
+	var runMsgCtx sdk.Ctx
+	var newMS sdk.MultiStore
+	if mode == runTxModeSimulate {
+		// a simulation must never touch the live state: keep the cache-wrapped
+		// context built by getContextForTx, which is never written.
+		runMsgCtx = ctx
+	} else {
+		runMsgCtx, newMS = app.txContext(ctx, txBytes) // todo edit here!!!
+	}
 	result = app.runMsg(runMsgCtx, msgs, mode)
 	result.GasWanted = gasWanted
 
